@@ -13,7 +13,9 @@ Next ==
                 [] e.k = "fmt" -> FmtLaws(e)
                 [] e.k = "serde" -> SerdeLaws(e)
                 \* a comparison of two byte strings never panics
-                [] e.k = "panic" -> {<<"C14", "no_panic">>}
+                [] e.k = "panic" -> {<<(IF e.mode = "cmp" THEN "C14" ELSE "C15"), "no_panic">>}
+                \* the process died inside the call (stack overflow, abort)
+                [] e.k = "crash" -> {<<(IF e.mode = "cmp" THEN "C14" ELSE "C15"), "no_crash">>}
                 [] OTHER -> {}
      IN /\ nviol' = nviol + (IF V # {} THEN 1 ELSE 0)
         /\ cnt' = Bump(cnt, e.k)
